@@ -2,6 +2,7 @@
 
 use crate::driver::{minimise, run_generated, run_ops, ReplayDoc};
 use crate::gen::Swarm;
+use crate::scen_bt::Bt;
 use crate::scen_hist::Hist;
 use crate::scen_mask::Mask;
 use crate::scen_twin::Twin;
@@ -64,10 +65,23 @@ pub fn spec(id: &str) -> Option<PropSpec> {
         quarantine_note: "",
     };
     Some(match id {
-        "C03" => m("C03", 3, 20000, 300000, &["the gate is switched with the guarded hook H4 (vibesql_types::verif::skip(COLUMNAR)); the hook's hit counter shows how often the gated path was really taken", "probes are single-table COUNT/SUM/AVG/MIN/MAX (also SUM(a*b), SUM(a+k)) with WHERE restricted to what the gate admits, optional HAVING/LIMIT/OFFSET", "results compared bit-exactly including the value variant"], &[]),
-        "C05" => m("C05", 5, 15000, 250000, &["'definitional nested evaluation' = all guarded switches H5 set: no join reordering, no hash join (nested loop only), no IN/EXISTS rewrite, no semi-join transform, no index-backed IN fast path, no index scan", "the cross-rendering half (IN/EXISTS/NOT IN/NOT EXISTS, comma-join permutations, INNER JOIN vs cross product + WHERE, derived-table wrapping) is metamorphic generation riding on the same runs", "NOT IN renderings are compared only with the subquery column restricted to non-NULL values and the outer column non-NULL, where the semantics coincide"], &[]),
+        "C17" => PropSpec {
+            id: "C17",
+            scenario: "bt",
+            label: 17,
+            runs_quick: 25000,
+            runs_thorough: 400000,
+            level: "exploration",
+            rule: "each run = one seeded key schema (INTEGER degree 215 / VARCHAR(50) / VARCHAR(200) degree 5 / composite), optional bulk load, then up to 400 seeded operations in ramp-up / drain / mixed / read-heavy phases on the real BTreeIndex + PageManager over the simulated disk; an evaluation is one answer compared with the BTreeMap model or one structure check of the persisted bytes; non-trivial = >=1 successful mutation and >=1 comparison; distinct = distinct hash of the operation-name sequence and reach probes",
+            assumptions: &["reference model BTreeMap<Vec<SqlValue>, Vec<RowId>> uses SqlValue's own total order for keys (the order the tree is specified to keep)", "at most 40 row ids per key (a key's row-id list must fit into one 4 KiB page)", "the page-manager file is not re-opened (PageManager and BTreeIndex metadata both claim page 0; re-opening is outside the statement)", "no I/O faults are injected: the listed properties are silent about index-file I/O errors"],
+            stubs: &["file system under the index file (SimDisk behind the real StorageBackend/StorageFile traits)"],
+            quarantine_note: "",
+        },
+        "C03" => m("C03", 3, 15000, 300000, &["the gate is switched with the guarded hook H4 (vibesql_types::verif::skip(COLUMNAR)); the hook's hit counter shows how often the gated path was really taken", "probes are single-table COUNT/SUM/AVG/MIN/MAX (also SUM(a*b), SUM(a+k)) with WHERE restricted to what the gate admits, optional HAVING/LIMIT/OFFSET", "results compared bit-exactly including the value variant"], &[]),
+        "C05" => m("C05", 5, 10000, 200000, &["'definitional nested evaluation' = all guarded switches H5 set: no join reordering, no hash join (nested loop only), no IN/EXISTS rewrite, no semi-join transform, no index-backed IN fast path, no index scan", "the cross-rendering half (IN/EXISTS/NOT IN/NOT EXISTS, comma-join permutations, INNER JOIN vs cross product + WHERE, derived-table wrapping) is metamorphic generation riding on the same runs", "NOT IN renderings are compared only with the subquery column restricted to non-NULL values and the outer column non-NULL, where the semantics coincide"], &[]),
         "C04" => m("C04", 4, 6000, 100000, &["rayon is replaced by a deterministic single-thread stand-in with rayon's documented semantics (order-preserving collect, stable par_sort_by); per combinator call the stand-in draws the execution order / split tree from a seeded schedule stream", "thresholds are switched per thread through hook H3 (never / always / 7)", "no claim about data races between real threads: the parallel closures contain no unsafe code and capture only shared references"], &["rayon (deterministic stand-in /verif/sim/simrayon)"]),
         "C02" => t("C02", 2, 20000, 400000, &["twin 0 receives every CREATE/DROP INDEX of the history, twin 1 none; a statement rejected by twin 0 (e.g. by a UNIQUE index) is not applied to twin 1, so both stay in the same state", "probes cover a generated SQL subset (single table with all comparison operators/BETWEEN/IN/AND/OR, ORDER BY/LIMIT, DISTINCT, aggregates, GROUP BY, 2-table joins, IN/EXISTS/NOT IN/NOT EXISTS/scalar subqueries, set operations, derived tables)"]),
+        "C16" => t("C16", 16, 12000, 200000, &["twin 0 Database::new() (in-memory indexes); twin 1 Database::with_config(memory budget 1..4096 bytes, SpillToDisk); twin 2 disk-backed from CREATE INDEX on (guarded hook H2, the 100000-row threshold is otherwise out of reach); twins 1 and 2 keep their index files on a simulated disk behind the real StorageBackend trait (hook H1)", "same probes as C02; statements must be accepted/rejected alike (unique-index violations)", "transactions are not part of this workload"]),
         "C18" => t("C18", 18, 12000, 200000, &["the restarted twin is saved to a real file under /dev/shm, dropped, and re-created with load_*; the twin that never restarts is the reference", "column types limited to INTEGER and VARCHAR in this scenario (the full persisted type set is exercised by the 'types' sub-scenario)"]),
         "C19" => t("C19", 19, 12000, 200000, &["oracle restricted to what the statement promises: tables, columns (name, type) and exactly the same rows", "after a reload the history continues on both twins; a reloaded twin that accepts/rejects differently (constraints are not promised) ends the run without alarm"]),
         "C09" => s("C09", 9, 30000, 500000, "exploration", &["the set of affected rows and the new row images are taken from the SUT's own SELECT on the pre-state (the property is agreement between the DML and the query reading of the predicate)", "values compared after numeric normalisation (integer variants and integral floats by value)"], ""),
@@ -141,6 +155,9 @@ fn tweak_for(prop: &str) -> impl Fn(&mut Swarm) {
             sw.with_tx = false;
             sw.steps = sw.steps.max(16);
         }
+        "C17" => {
+            sw.steps = *[30usize, 80, 150, 400].get((sw.domain % 4) as usize).unwrap_or(&150);
+        }
         "C03" => {
             if sw.guard("c03_no_ints_beyond_2_53") {
                 sw.extreme_ints = false;
@@ -166,6 +183,13 @@ fn tweak_for(prop: &str) -> impl Fn(&mut Swarm) {
             sw.n_tables = sw.n_tables.max(2);
             sw.steps = sw.steps.max(20);
         }
+        "C16" => {
+            sw.extreme_ints = false;
+            sw.with_indexes = true;
+            sw.w_index = 4;
+            sw.with_tx = false;
+            sw.steps = sw.steps.max(16);
+        }
         "C18" | "C19" => {
             sw.with_tx = false;
             sw.steps = sw.steps.max(16);
@@ -177,8 +201,9 @@ fn tweak_for(prop: &str) -> impl Fn(&mut Swarm) {
 pub fn run(prop: &str, run_seed: u64, guards: &[String]) -> RunReport {
     match prop {
         "C09" | "C10" | "C11" | "C12" | "C13" | "C14" | "C15" | "C24" => run_generated::<Hist>(prop, run_seed, guards, tweak_for(prop)),
+        "C17" => run_generated::<Bt>(prop, run_seed, guards, tweak_for(prop)),
         "C03" | "C04" | "C05" => run_generated::<Mask>(prop, run_seed, guards, tweak_for(prop)),
-        "C02" | "C18" | "C19" => run_generated::<Twin>(prop, run_seed, guards, tweak_for(prop)),
+        "C02" | "C16" | "C18" | "C19" => run_generated::<Twin>(prop, run_seed, guards, tweak_for(prop)),
         _ => panic!("unknown property {}", prop),
     }
 }
@@ -188,6 +213,7 @@ pub fn replay(doc: &ReplayDoc) -> (Option<Violation>, u64) {
         "hist" => run_ops::<Hist>(&doc.property, &doc.swarm, &doc.ops),
         "twin" => run_ops::<Twin>(&doc.property, &doc.swarm, &doc.ops),
         "mask" => run_ops::<Mask>(&doc.property, &doc.swarm, &doc.ops),
+        "bt" => run_ops::<Bt>(&doc.property, &doc.swarm, &doc.ops),
         other => panic!("unknown scenario {}", other),
     }
 }
@@ -197,6 +223,7 @@ pub fn minimise_doc(doc: &ReplayDoc) -> ReplayDoc {
         "hist" => minimise::<Hist>(doc),
         "twin" => minimise::<Twin>(doc),
         "mask" => minimise::<Mask>(doc),
+        "bt" => minimise::<Bt>(doc),
         _ => doc.clone(),
     }
 }
